@@ -30,6 +30,7 @@ type snap struct {
 	bal    map[string]*big.Int // "bank|<acct>|<denom>", "erc20|<contract>|<acct>", "supply|<denom>", "tsupply|<contract>"
 	stores map[string]map[string]string
 	stake  map[string]string
+	rate   map[string]sdk.Dec // validator -> delegator shares per token
 }
 
 func compact(v string) string {
@@ -107,6 +108,12 @@ func (w *world) snapshot() *snap {
 		}
 	}
 	s.stake = w.stakeState()
+	s.rate = map[string]sdk.Dec{}
+	for _, v := range w.c.App.StakingKeeper.GetAllValidators(w.c.ReadCtx()) {
+		if v.Tokens.IsPositive() {
+			s.rate[v.OperatorAddress] = v.DelegatorShares.QuoInt(v.Tokens)
+		}
+	}
 	for _, name := range []string{"aggregate", "bank", "evm", "staking", "gov", "distribution"} {
 		d := w.c.DumpStore(name)
 		for k, v := range d {
